@@ -52,7 +52,7 @@ Inductive stmt :=
   | SReraise                                         (* raise *)
   | STry (body : list stmt) (handlers : list (matcher * option N * list stmt)) (orelse finalbody : list stmt)
   | SWith (items : list N) (body : list stmt)        (* with M(k1), M(k2): *)
-  | SAssert (k : N)                                  (* assert c(k) *)
+  | SAssert (k : N) (msg : option N)                 (* assert c(k) / assert c(k), ms(j) — ms(j) is a message site *)
   | SFunc (k : N) (body : list stmt).                (* def g(): body ; fr(k, g())  — a function boundary *)
 
 Definition handler : Type := (matcher * option N * list stmt)%type.
@@ -85,7 +85,8 @@ Inductive event :=
   | EvEnter (k : N)
   | EvExit (k : N) (info : option exc)       (* __exit__ called with this exception information *)
   | EvP (k name : N) (v : option exc)        (* probe *)
-  | EvRet (k : N) (v : option N).            (* value returned through function boundary k *)
+  | EvRet (k : N) (v : option N)             (* value returned through function boundary k *)
+  | EvMsg (j : N).                           (* the message expression ms(j) of an assert was evaluated *)
 
 Inductive xres := XRet (b : bool) | XRaise (e : exc).       (* what __exit__ does *)
 
@@ -95,10 +96,11 @@ Record host (H : Type) := {
   h_next : N -> H -> bool * H;
   h_enter : N -> H -> option exc * H;                       (* Some e: __enter__ raises e *)
   h_exit : N -> option exc -> H -> xres * H;
+  h_msg : N -> H -> option exc * H;                         (* Some e: evaluating the assert message raises e *)
   h_sub : N -> N -> bool                                    (* issubclass *)
 }.
 Arguments h_cond {H}. Arguments h_iter {H}. Arguments h_next {H}. Arguments h_enter {H}.
-Arguments h_exit {H}. Arguments h_sub {H}.
+Arguments h_exit {H}. Arguments h_msg {H}. Arguments h_sub {H}.
 
 Record deviations := {
   d8_else_drops_jump : bool;     (* D8: break/continue marker ignored in a loop's else clause *)
@@ -148,6 +150,19 @@ Section Exec.
   Definition do_exit (m : N) (info : option exc) (st : state) : xres * state :=
     let st1 := emit (EvExit m info) st in
     match h_exit h m info (s_h st1) with (r, x) => (r, set_h x st1) end.
+
+  (* a failing assert: `if arg.msg: raise AssertionError(await self.aeval(arg.msg))` / `raise AssertionError`;
+     the message expression is evaluated only here, i.e. only when the test was false *)
+  Definition assert_fail (msg : option N) (st : state) : state * exc :=
+    match msg with
+    | None => (st, exc_of cls_AssertionError)
+    | Some j =>
+        let st1 := emit (EvMsg j) st in
+        match h_msg h j (s_h st1) with
+        | (Some e, x) => (set_h x st1, e)
+        | (None, x) => (set_h x st1, exc_of cls_AssertionError)
+        end
+    end.
 
   Definition is_exc (e : exc) : bool := h_sub h (x_cls e) cls_Exception.
   Definition h_matches (m : matcher) (e : exc) : bool :=
@@ -393,10 +408,10 @@ Section Exec.
       | STry b hs o f => ps_try rec cur b hs o f st
       | SWith items b =>
           if d9_with_flat cfg then ps_with_flat (rec cur) items b st else ps_with_nested (rec cur) items b st
-      | SAssert k =>
+      | SAssert k msg =>
           match q_cond k st with
           | (true, st1) => (st1, PV VNone)
-          | (false, st1) => (st1, PX (exc_of cls_AssertionError))
+          | (false, st1) => match assert_fail msg st1 with (st2, e) => (st2, PX e) end
           end
       | SFunc k b => ps_call (rec cur) k b st
       end.
@@ -543,10 +558,10 @@ Section Exec.
     | SReraise => (st, Exc (reraise cur))
     | STry b hs o f => py_try rec cur b hs o f st
     | SWith items b => py_with (rec cur) items b st
-    | SAssert k =>
+    | SAssert k msg =>
         match q_cond k st with
         | (true, st1) => (st1, Normal)
-        | (false, st1) => (st1, Exc (exc_of cls_AssertionError))
+        | (false, st1) => match assert_fail msg st1 with (st2, e) => (st2, Exc e) end
         end
     | SFunc k b => py_call (rec cur) k b st
     end.
